@@ -245,6 +245,45 @@ func (s *searcher) judge(w *World, sp *Spec, op Op, before int, must, may []Emit
 	return "", ""
 }
 
+// judgeLeakOnly is the part of the oracle that also holds where the model leaves the step's effect open (a login
+// that matches several sessions, a second login for a correlated session): every emitted event belongs to a tracked
+// session whose LOGIN record was processed and carries the identity of an arrived login whose pid is that session's.
+func (s *searcher) judgeLeakOnly(w *World, sp *Spec, before int) (string, string) {
+	cfg := s.cfg
+	for _, e := range w.Rec.From(before) {
+		si := sessIndexByID(cfg.Sess, e.Sess)
+		if si < 0 || !tracked(e.Sess) {
+			return "leak:unknown-session", fmt.Sprintf("event emitted with auditId %q which is no tracked session", e.Sess)
+		}
+		def := cfg.Sess[si]
+		opened := false
+		for j := 0; j < sp.sess[si].pos && j < len(def.Events); j++ {
+			if def.Events[j] == auparse.AUDIT_LOGIN {
+				opened = true
+			}
+		}
+		if !opened {
+			return "leak:no-login-record", fmt.Sprintf("event %s/%s emitted although the session's LOGIN record was never processed", e.Sess, e.Label)
+		}
+		any, ok := false, false
+		for li, ld := range cfg.Logins {
+			if sp.sess[si].pidOK && ld.PID == sp.sess[si].pid && sp.logins[li].status != lAbsent {
+				any = true
+				if e.Identity == w.Ident(li) {
+					ok = true
+				}
+			}
+		}
+		if !any {
+			return "leak:no-login", fmt.Sprintf("event %s/%s emitted although no login with pid %s has arrived", e.Sess, e.Label, def.PID)
+		}
+		if !ok {
+			return "identity", fmt.Sprintf("event %s/%s carries identity %s, which is no arrived login with pid %s", e.Sess, e.Label, e.Identity, def.PID)
+		}
+	}
+	return "", ""
+}
+
 // safeApply runs one operation and converts a panic (incl. the lock-timeout
 // panic of the sync shim: a self-deadlock) into a string.
 func safeApply(w *World, op Op) (err error, pan string) {
@@ -300,6 +339,11 @@ func (s *searcher) expand(h []step) (out []succ, unspecified bool, replays int) 
 				sc.class, sc.msg = "panic-or-deadlock:"+op2.K, "the operation did not complete: "+pan
 			} else if sp.Unspecified != "" {
 				sc.unspec = true
+				// what the step does to the sessions concerned is left open; what it must NOT do is not: nothing
+				// is emitted for a session no arrived login's pid matches, or with another identity than such a login's
+				if cfg.OIdent || cfg.ONoLeak {
+					sc.class, sc.msg = s.judgeLeakOnly(w, sp, before)
+				}
 			} else {
 				sc.class, sc.msg = s.judge(w, sp, op2, before, must, may, err)
 			}
@@ -405,7 +449,7 @@ func Search(run *mc.Run, cfg *Config) *Result {
 					if sc.perm {
 						s.res.PermChoices++
 					}
-					if sc.unspec {
+					if sc.unspec && sc.class == "" {
 						continue
 					}
 					if strings.HasPrefix(sc.class, "panic-or-deadlock") {
@@ -462,7 +506,12 @@ func ReplayHistory(run *mc.Run, cfg *Config, h []step) {
 		err := w.Apply(o)
 		setChooser(w, nil)
 		must, may := sp.Apply(o)
-		class, msg := s.judge(w, sp, o, before, must, may, err)
+		var class, msg string
+		if sp.Unspecified == "" {
+			class, msg = s.judge(w, sp, o, before, must, may, err)
+		} else if cfg.OIdent || cfg.ONoLeak {
+			class, msg = s.judgeLeakOnly(w, sp, before)
+		}
 		var got []string
 		for _, e := range w.Rec.From(before) {
 			got = append(got, e.Sess+"/"+e.Label+" "+e.Identity)
